@@ -117,7 +117,16 @@ func (m *memWriter) Write(p []byte) (int, error) {
 	m.writes++
 	return m.body.Write(p)
 }
-func (m *memWriter) Flush()                   { m.flushes++ }
+func (m *memWriter) Flush() { m.flushes++ }
+
+// gone signals the close notification (the client went away).
+func (m *memWriter) gone() {
+	select {
+	case m.cn <- true:
+	default:
+	}
+}
+
 func (m *memWriter) CloseNotify() <-chan bool { return m.cn }
 
 // apiDo issues one request against the router on the calling task.
@@ -129,6 +138,11 @@ func (w *apiWorld) apiDo(ctx context.Context, method, path string, body []byte) 
 	}
 	// net/http cancels a request's context when its handler returns; the scheduler's
 	// "request finished" event hangs off that
+	if ctx.Done() != nil {
+		// a client that can go away: the connection's close notification follows it
+		stop := context.AfterFunc(ctx, mw.gone)
+		defer stop()
+	}
 	ctx, cancel := context.WithCancel(ctx)
 	defer cancel()
 	req, err := http.NewRequestWithContext(ctx, method, "http://sim.local"+path, rd)
@@ -167,6 +181,10 @@ type memTransport struct{ w *apiWorld }
 
 func (t memTransport) RoundTrip(req *http.Request) (*http.Response, error) {
 	mw := newMemWriter()
+	if req.Context().Done() != nil {
+		stop := context.AfterFunc(req.Context(), mw.gone)
+		defer stop()
+	}
 	sctx, cancel := context.WithCancel(req.Context())
 	defer cancel() // as net/http does when the handler returns
 	sreq := req.Clone(sctx)
@@ -391,6 +409,7 @@ func (w *apiWorld) newServer(gpus discover.GpuInfoList, model string, f *ggml.GG
 }
 
 // closedDone: Close() of an instance is about to return, the runner is torn down.
+//
 //go:norace
 func (w *apiWorld) closedDone(s *simLlama) {
 	w.seq++
@@ -581,6 +600,7 @@ func firstN(s string, n int) string {
 // ---- known findings first/last ---------------------------------------------------------------
 
 var apiKnown map[string]bool
+var apiReplayWant string
 
 // orderKnownLast moves violations whose signature is an open known finding
 // behind the others, so that a run that reaches a known finding and something
@@ -602,6 +622,26 @@ func orderKnownLast(r verifsim.Result, prop string) verifsim.Result {
 	}
 	if len(r.Violations) < 2 {
 		return r
+	}
+	// bin/check --replay <file>: the question is whether the violation the file expects
+	// is still there, whatever else the run shows and whatever is a known finding today
+	if rp := os.Getenv("VERIF_REPLAY"); rp != "" {
+		if apiReplayWant == "" {
+			apiReplayWant = "?"
+			if b, err := os.ReadFile(rp); err == nil {
+				var rf verifsim.ReplayFile
+				if json.Unmarshal(b, &rf) == nil && rf.Expect.Signature != "" {
+					apiReplayWant = rf.Expect.Signature
+				}
+			}
+		}
+		for i, v := range r.Violations {
+			if v.Signature == apiReplayWant {
+				vs := append([]verifsim.Violation{v}, r.Violations[:i]...)
+				r.Violations = append(vs, r.Violations[i+1:]...)
+				return r
+			}
+		}
 	}
 	var first, last []verifsim.Violation
 	for _, v := range r.Violations {
